@@ -143,6 +143,11 @@ type Scenario struct {
 	PriorInputs []Input `json:"priorInputs,omitempty"`
 	// TargetDefault: the target is created with a default option (FuncName).
 	TargetDefault bool `json:"targetDefault,omitempty"`
+	// RawConverters: the converters are handed over as plain Go functions in
+	// ONE Converter(f1, f2, ...) option (the library wraps them itself each
+	// time the option is applied) instead of one ConverterFunc(*Func) each.
+	// Built and run-once converters still go through ConverterFunc.
+	RawConverters bool `json:"rawConverters,omitempty"`
 }
 
 func (s *Scenario) String() string {
